@@ -85,6 +85,31 @@ static int drv_groups(const Opts &o)
 	bool thorough = (o.tier == "thorough");
 	hashlog.log = true;
 	struct C { const char *cls; int variants; } classes[] = { {"D", 1}, {"QR", 1}, {"P", 2}, {"PT", 1}, {"G", 3}, {"R", 6}, {"PVSS", 1}, {"NP", 1} };
+	// ---- every run: the RETRY branch of the verifiable generator derivation.  At 64 bits and more the first hash candidate is
+	// always usable, so the second round of the loop (candidate appended to the hash input) is never entered; in tiny Schnorr
+	// groups the first candidate H(...)^k is 0, 1 or p-1 for about 3 of q groups.  All such groups with q <= 31, k <= 60 (and a
+	// few with a usable first candidate), every class / variant that checks a derived generator: the derived generator must
+	// be accepted and other elements of order q refused (seed C06c: the checker of one class hashes the claimed g in the retry).
+	if (!o.has("--no-tiny")) {
+		static const unsigned qs[] = { 5, 7, 11, 13, 17, 19, 23, 29, 31 }; unsigned plain = 0;
+		for (unsigned q : qs) for (unsigned k = 2; k <= 60; k += 2) {
+			Z zp; mpz_set_ui(zp, (unsigned long)q * k + 1); if (!mpz_probab_prime_p(zp, 30)) continue;
+			Z zq, zk, c1, pm1; mpz_set_ui(zq, q); mpz_set_ui(zk, k); mpz_sub_ui(pm1, zp, 1); Z gq; mpz_gcd(gq, zq, zk); if (mpz_cmp_ui(gq, 1)) continue;
+			{ bool was = hashlog.log; hashlog.log = false; std::stringstream U; U << "LibTMCG|" << zp.v << "|" << zq.v << "|ggen|"; Z foo; tmcg_mpz_shash(foo, U.str()); mpz_powm(c1, foo, zk, zp); hashlog.log = was; }
+			bool retry = !mpz_cmp_ui(c1, 0) || !mpz_cmp_ui(c1, 1) || !mpz_cmp(c1, pm1);
+			if (!retry && (plain >= 4 || ((q + k + o.seed) % 7))) continue; if (!retry) plain++;
+			GP P; P.p = zp; P.q = zq; P.k = zk; canonical_g(P.g, P.p, P.q, P.k);
+			// h: another element of order q
+			Z e; mpz_set_ui(e, 2); do { mpz_powm(P.h, P.g, e, P.p); mpz_add_ui(e, e, 1); } while (!mpz_cmp_ui(P.h, 1) || !mpz_cmp(P.h, P.g));
+			unsigned fs = mpz_sizeinbase(P.p, 2), gsz = mpz_sizeinbase(P.q, 2);
+			struct V { const char *cls; int variant; } vs[] = { {"D", 0}, {"R", 0}, {"R", 1}, {"R", 2}, {"R", 3}, {"R", 4}, {"R", 5}, {"PVSS", 0} };
+			for (auto &v : vs) {
+				std::string tg = retry ? "tiny-retry" : "tiny";
+				emit_check(v.cls, v.variant, fs, gsz, true, 0, P, tg + ":valid");
+				for (unsigned j = 2; j <= 4 && j < q; j++) { GP Q = P; Z ej; mpz_set_ui(ej, j); mpz_powm(Q.g, P.g, ej, P.p); if (!mpz_cmp(Q.g, Q.h)) continue; emit_check(v.cls, v.variant, fs, gsz, true, 0, Q, tg + ":g-other-element"); }
+			}
+		}
+	}
 	for (uint64_t c = 0; c < o.cases; c++) {
 		const C &K = classes[c % 8];
 		std::string cls = K.cls; int variant = g.below(K.variants);
